@@ -502,6 +502,9 @@ impl Scheduler {
                     mem::drop(ready);
 
                     if self.core.claim_pending_queue(queue) {
+                        // Set the queue as active (so that it's marked as panicked if one of its jobs panics while we're running it)
+                        let _active = ActiveQueue { queue: &*queue };
+
                         // We're now running the queue: try to run jobs on it until it's ready
                         while !*ready_mutex.lock().unwrap() {
                             match JobQueue::run_one_job_now(queue) {
